@@ -210,10 +210,23 @@ func (gridSim) Run(e *Env, ci interface{}) {
 		return
 	}
 	for _, f := range c.Files {
-		if !f.Layout.Valid() || (f.Base != "src" && f.Base != "dst") || f.Rel == "" {
+		if !f.Layout.Valid() || (f.Base != "src" && f.Base != "dst") || f.Rel == "" || f.Layout.String() != c.Layout.String() {
 			e.Skip("invalid-case")
 			return
 		}
+	}
+	// the verdicts below are stated for the grid's world: exactly these files
+	want := map[string]bool{"src/grp/it0/a.wsp": true, "src/grp/it0/b.wsp": true, "dst/grp/it0/a.wsp": true, "dst/grp/it0/b.wsp": true, "dst/grp/it0/sum.wsp": true}
+	if len(c.Files) != len(want) {
+		e.Skip("invalid-case")
+		return
+	}
+	for _, f := range c.Files {
+		if !want[f.Base+"/"+f.Rel] || f.Absent {
+			e.Skip("invalid-case")
+			return
+		}
+		delete(want, f.Base+"/"+f.Rel)
 	}
 	SetClock(e, c.Clock0)
 	os.MkdirAll(filepath.Join(e.Dir, "src"), 0o755)
